@@ -141,7 +141,8 @@ def run(job, seed):
                     old_choices.append(c)
         for end, new_ovr, old_ovr, loc, noise in itertools.product(
                 (False, True), [None] + ovr, old_choices,
-                ('main', 'dir', 'split', 'dironly'), (False, True)):
+                ('main', 'dir', 'split', 'dironly', 'oldtwice'),
+                (False, True)):
             if loc == 'split' and (new_ovr is None or old_ovr is None):
                 continue
             if old_ovr is not None and old_ovr != 'rule:%s' % new1 and \
@@ -151,6 +152,9 @@ def run(job, seed):
                 continue      # the unusual spellings: a reduced cross
             if noise and loc != 'main':
                 continue
+            if loc == 'oldtwice' and (old_ovr is None or
+                                      new_ovr is not None):
+                continue
             files = {'policy.yaml': {}, 'd1/o.yaml': {}}
             # dironly: there is no main policy file at all
             f_new = 'policy.yaml' if loc == 'main' else 'd1/o.yaml'
@@ -159,6 +163,11 @@ def run(job, seed):
                 files[f_new][new1] = new_ovr
             if old_ovr is not None:
                 files[f_old][old] = old_ovr
+            if loc == 'oldtwice':
+                # the old name is overridden in BOTH files with different
+                # values; the directory file (later) is the one in effect
+                files['policy.yaml'][old] = 'role:c' if is_alias(
+                    old_ovr, new1) else 'rule:%s' % new1
             if noise:
                 files['policy.yaml']['svc:unrelated'] = 'role:a'
             w = world.FileWorld()
@@ -275,7 +284,11 @@ def run(job, seed):
                 if old_ovr is not None and two is not True and not noise:
                     del files[f_old][old]
                     w.write(f_old, world.dumps_policy(files[f_old], 'json'))
-                    exp = ref_new(N, O, end, new_ovr, None, renamed, new1)
+                    # (in 'oldtwice' the main file's override is still there)
+                    exp = ref_new(N, O, end, new_ovr,
+                                  files['policy.yaml'].get(old)
+                                  if loc == 'oldtwice' else None, renamed,
+                                  new1)
                     if exp is not None:
                         acc.case('table', True)
                         acc.ev(16)
